@@ -101,8 +101,19 @@ def mkobj(name):
     return r
 
 
+# tokens the sheet-level dispatch maps to a no-op production (they reset the parser's order state);
+# a trailing 'g' = glued: no whitespace between the token and what follows
+SEPS = {"cdo": ("<!--", False), "cdc": ("-->", False), "cdog": ("<!--", True), "cdcg": ("-->", True)}
+
+
 def text_of(names):
-    return "\n".join(RULES[n][0] for n in names)
+    out = []
+    for i, n in enumerate(names):
+        if n in SEPS:
+            out.append(SEPS[n][0] + ("" if SEPS[n][1] or i == len(names) - 1 else "\n"))
+        else:
+            out.append(RULES[n][0] + ("" if i == len(names) - 1 else "\n"))
+    return "".join(out)
 
 
 def _target(sheet, k):
@@ -280,7 +291,7 @@ def enc_op(op):
         return "E|%d" % ENC[op[1]]
     if kind == "text":
         if op[1] is None:
-            return "T|" + ";".join(enc_item(proto_of(n)) for n in op[2])
+            return "T|" + ";".join(("S1" if SEPS[n][1] else "S0") if n in SEPS else enc_item(proto_of(n)) for n in op[2])
         return "C|%d|T|%s" % (op[1], "+".join(str(proto_of(n)[0]) for n in op[2]))
     raise ValueError(op)
 
@@ -480,7 +491,8 @@ def core_alphabet():
     A += [["del", None, 0], ["del", None, -1], ["del", None, 1]]
     A += [["nsset", "p", "u1"], ["nsset", "p", "u2"], ["nsdel", "p"]]
     A += [["enc", "ascii"], ["enc", None]]
-    A += [["text", None, ["cs1", "im", "np1", "st"]], ["text", None, ["st", "im"]], ["text", None, []]]
+    A += [["text", None, ["cs1", "im", "np1", "st"]], ["text", None, ["st", "im"]], ["text", None, []],
+          ["text", None, ["st", "cdc", "cdo", "im", "st", "cdcg", "cs1"]]]
     return A
 
 
@@ -508,7 +520,10 @@ def wide_alphabet():
         A.append(["nsdel", p])
     A += [["enc", "ascii"], ["enc", "utf-8"], ["enc", None]]
     for t in (["cs1", "im", "np1", "stp"], ["st", "im"], [], ["cm", "cs1"], ["var", "np1", "st"], ["np1", "np2", "nq2", "stp"],
-              ["im", "cm", "nq2", "var", "ff", "pg", "md", "un"], ["np1", "nq2", "stq", "mg", "im"], ["stp"]):
+              ["im", "cm", "nq2", "var", "ff", "pg", "md", "un"], ["np1", "nq2", "stq", "mg", "im"], ["stp"],
+              ["st", "cdc", "cdo", "im", "st"], ["ff", "cdo", "im", "np1"], ["md", "cdcg", "cs1", "st"],
+              ["cdo", "cs1", "st", "cdc"], ["cdog", "cs1", "im", "cdc", "np1", "st", "cdo", "np2"],
+              ["im", "st", "cdcg", "im", "cdo", "var", "pg"], ["cdo", "st", "cdc"]):
         A.append(["text", None, t])
     return A
 
@@ -562,7 +577,8 @@ def random_op(rng, rx):
     if r < 0.78:
         return ["enc", rng.choice(["ascii", "utf-8", None])]
     if r < 0.86:
-        return ["text", None, [rng.choice(names) for _ in range(rng.randint(0, 6))]]
+        pool = names + (list(SEPS) * 2 if rng.random() < 0.5 else [])
+        return ["text", None, [rng.choice(pool) for _ in range(rng.randint(0, 7))]]
     k = rng.choice([0, 0, 1, 1, 2, 3, 4, [0, 0], [1, 0]])
     return rng.choice(container_ops(k))
 
